@@ -1012,3 +1012,178 @@ def is_k1(scn, reason):
     """known finding K1: never-observed arm, l2_lambda != 1, LinUCB bonus"""
     lp = scn["cfg"]["lp"]
     return lp["k"] == "linucb" and lp["lam"] != 1.0 and lp["alpha"] > 0 and "[never observed]" in (reason or "")
+
+
+# ------------------------------------------------------------------ C20 invariance to arm names, row order, reward shift / scale
+
+RELABEL = {"int": lambda i: 100 + 3 * i, "str": lambda i: chr(97 + i) * (1 + (i * 2) % 5), "float": lambda i: 0.25 + 1.5 * i}
+
+
+def gen_c20(seed, index):
+    prof = {"name": "C20", "lp": ALL_LP, "np": [None, None] + G.NP_KINDS, "p_binz": 0.0, "p_add_binz": 0.0,
+            "weights": {"fit": 1, "pfit": 3, "query": 3, "add": 1, "rem": 0.7, "warm": 0.5}, "unknown_labels": False}
+    rng, g = _gen(seed, index, prof)
+    scn = g.build()
+    scn["target"] = rng.choice(["int", "str", "float"])
+    scn["perm_seed"] = rng.randint(0, 10 ** 6)
+    return scn
+
+
+def _relabel(scn, kind):
+    labels = T.register_labels(scn)
+    mp = {repr(a): RELABEL[kind](i) for i, a in enumerate(labels)}
+
+    def f(a):
+        return a if isinstance(a, dict) else mp[repr(a)]
+    out = copy.deepcopy(scn)
+    out["cfg"]["arms"] = [f(a) for a in scn["cfg"]["arms"]]
+    for op in out["ops"]:
+        if op["op"] in ("fit", "pfit"):
+            op["d"] = [f(a) for a in op["d"]]
+        elif op["op"] in ("add", "rem"):
+            op["arm"] = f(op["arm"])
+        elif op["op"] == "warm":
+            op["feats"] = [[f(a), v] for a, v in op["feats"]]
+    return out, f
+
+
+def _rename_result(x, f):
+    if isinstance(x, tuple) and len(x) == 2 and x[0] in ("ok",):
+        return (x[0], _rename_result(x[1], f))
+    if isinstance(x, list):
+        if x and isinstance(x[0], tuple) and len(x[0]) == 2:
+            return [(T.canon(f(k)), v) for k, v in x]
+        return [_rename_result(v, f) for v in x]
+    if isinstance(x, (int, float, str)):
+        return x
+    return x
+
+
+@twin("relabel_equivariance")
+@T.quiet
+def relabel_equivariance(scn):
+    """renaming the arms one-to-one (keeping their order) renames the outputs and changes nothing else"""
+    other, f = _relabel(scn, scn.get("target", "str"))
+    labels = T.register_labels(scn)
+    a = S.make_mab(scn["cfg"])
+    ra = T.apply_ops(a, scn["ops"] + [{"op": "cold"}, {"op": "arms"}])
+    T.register_labels(other)
+    b = S.make_mab(other["cfg"])
+    rb = T.apply_ops(b, other["ops"] + [{"op": "cold"}, {"op": "arms"}])
+    back = {repr(T.canon(f(x))): T.canon(x) for x in labels}
+
+    def unname(x):
+        if isinstance(x, tuple) and x and x[0] == "ok":
+            return ("ok",) + tuple(unname(v) for v in x[1:])
+        if isinstance(x, list):
+            if x and isinstance(x[0], tuple) and len(x[0]) == 2:
+                return [(back.get(repr(k), k), v) for k, v in x]
+            return [unname(v) for v in x]
+        return back.get(repr(x), x) if not isinstance(x, float) else x
+    ops = scn["ops"] + [{"op": "cold"}, {"op": "arms"}]
+    for i, (x, y) in enumerate(zip(ra, rb)):
+        y2 = unname(y)
+        # predictions are arm labels: map back; expectations are floats: keep
+        if ops[i]["op"] in ("pred", "cold", "arms") and y[0] == "ok":
+            y2 = ("ok", _unname_arms(y[1], back))
+        if not T.same(x, y2, 0.0):
+            return "step %d (%s): original %r, relabelled (%s labels) %r" % (i, ops[i]["op"], x, scn.get("target"), y2)
+    return None
+
+
+def _unname_arms(v, back):
+    if isinstance(v, list):
+        return [_unname_arms(x, back) for x in v]
+    return back.get(repr(v), v)
+
+
+DET_KINDS = {"greedy": {"eps": 0.0}, "ucb": {}, "lingreedy": {"eps": 0.0}, "linucb": {}}
+
+
+def gen_c20_det(seed, index):
+    prof = {"name": "C20d", "lp": list(DET_KINDS), "np": [None, None, "radius", "lsh"],
+            "fix_lp": DET_KINDS, "weights": {"fit": 1, "pfit": 3, "query": 2, "add": 0, "rem": 0, "warm": 0, "swap": 0},
+            "unknown_labels": False, "n_ops": (2, 6)}
+    rng, g = _gen(seed, index, prof)
+    scn = g.build()
+    scn["perm_seed"] = rng.randint(0, 10 ** 6)
+    scn["shift"] = rng.choice([1.0, -2.5, 8.0])
+    scn["scale"] = rng.choice([2.0, 0.5, -4.0])
+    return scn
+
+
+@twin("row_permutation")
+@T.quiet
+def row_permutation(scn):
+    """the same observations in a different row order leave every expectation unchanged (up to rounding)"""
+    T.register_labels(scn)
+    rng = random.Random(scn.get("perm_seed", 0))
+    other = copy.deepcopy(scn)
+    for op in other["ops"]:
+        if op["op"] in ("fit", "pfit") and len(op["d"]) > 1:
+            idx = list(range(len(op["d"])))
+            rng.shuffle(idx)
+            op["d"] = [op["d"][i] for i in idx]
+            op["r"] = [op["r"][i] for i in idx]
+            if op.get("c") is not None:
+                op["c"] = [op["c"][i] for i in idx]
+    a = S.make_mab(scn["cfg"])
+    b = S.make_mab(other["cfg"])
+    ra = T.apply_ops(a, [o for o in scn["ops"] if o["op"] != "pred"])
+    rb = T.apply_ops(b, [o for o in other["ops"] if o["op"] != "pred"])
+    d = T.first_diff(ra, rb, 1e-9)
+    if d:
+        return "step %d: original order %r, permuted rows %r" % (d[0], d[1], d[2])
+    return None
+
+
+@twin("reward_shift_scale")
+@T.quiet
+def reward_shift_scale(scn):
+    """adding a constant to all rewards shifts greedy/UCB1 expectations by it (every arm observed);
+    scaling all rewards scales LinGreedy expectations"""
+    cfg = scn["cfg"]
+    if cfg.get("np"):
+        return None
+    k = cfg["lp"]["k"]
+    T.register_labels(scn)
+    c = scn.get("shift", 1.0)
+    sc = scn.get("scale", 2.0)
+    if k not in ("greedy", "ucb", "lingreedy"):
+        return None
+    other = copy.deepcopy(scn)
+    for op in other["ops"]:
+        if op["op"] in ("fit", "pfit"):
+            op["r"] = [(x + c) if k != "lingreedy" else (x * sc) for x in op["r"]]
+    a = S.make_mab(cfg)
+    b = S.make_mab(cfg)
+    ops = [o for o in scn["ops"] if o["op"] != "pred"]
+    ops2 = [o for o in other["ops"] if o["op"] != "pred"]
+    observed = set()
+    for i, (o1, o2) in enumerate(zip(ops, ops2)):
+        x = T.apply_op(a, o1)
+        y = T.apply_op(b, o2)
+        if o1["op"] == "fit" or (o1["op"] == "pfit" and not observed and not a._is_initial_fit):
+            observed = set()
+        if o1["op"] in ("fit", "pfit"):
+            if o1["op"] == "fit":
+                observed = set()
+            observed |= {repr(T.canon(v)) for v in o1["d"]}
+        if len(x) > 1 and x[0] == "ok" and isinstance(x[1], list) and y[0] == "ok":
+            if k == "lingreedy":
+                sx = _map_vals(x[1], lambda arm, v: v * sc)
+            else:
+                # the law is stated for observed arms; an unobserved arm keeps the neutral 0
+                sx = _map_vals(x[1], lambda arm, v: v + c if repr(arm) in observed else v)
+            if not T.same(sx, y[1], 1e-9):
+                return "step %d: expectations with rewards %s by %r are %r, expected %r" % (
+                    i, "scaled" if k == "lingreedy" else "shifted", sc if k == "lingreedy" else c, y[1], sx)
+    return None
+
+
+def _map_vals(x, f):
+    if isinstance(x, list):
+        if x and isinstance(x[0], tuple):
+            return [(k, f(k, v)) for k, v in x]
+        return [_map_vals(v, f) for v in x]
+    return x
